@@ -1,11 +1,11 @@
 SPECIFICATION MSpec
 CONSTANTS
-  Vals = {1,2,3}
+  Vals = {1,2}
   Callers = {"owner","stranger"}
   Owner = "owner"
   HasImmutable = TRUE
   TwoPhase = TRUE
   MaxSteps = 2
 VIEW MView
-INVARIANTS OwnerOnly AllOrNothing Atomic AlwaysValid ImmutableKept CommitAppliesStaged
+INVARIANTS OwnerOnly AllOrNothing Atomic AlwaysValid ImmutableKept
 CHECK_DEADLOCK FALSE
